@@ -71,8 +71,9 @@ def _pktmgr_models(c, invs_abl):
     for mech, inv in invs_abl:
         c.model("PktMgr", "PktMgr.abl_%s.cfg" % mech, must="fail", expect=inv, note="mechanism %s removed" % mech)
     if c.tier == "thorough":
-        c.model("PktMgr", "PktMgr.thorough.cfg", timeout=3000, note="exhaustive: <=5 requests, 2 handles")
-        c.model("PktMgr", "PktMgr.thorough2.cfg", timeout=3000, note="exhaustive: NW=3, caps=2, <=4 requests")
+        c.model("PktMgr", "PktMgr.thorough.cfg", timeout=3000, note="exhaustive: <=5 requests, 1 handle, kinds R/C/M (27.5 M states)")
+        c.model("PktMgr", "PktMgr.thorough2.cfg", timeout=3000, note="exhaustive: NW=3, channel capacities 2, <=4 requests (6.8 M states)")
+        c.model("PktMgr", "PktMgr.thorough3.cfg", timeout=3000, note="exhaustive: <=4 requests, 2 handles (29 M states)")
 
 
 def _count_pipeline(c, path):
